@@ -10,15 +10,19 @@ from . import gen
 # field -> values from the complement of its documented domain
 BAD = {
     "compose": {"id": [None, 5, "", "abc"], "type": ["bogus", None], "date": ["2015", 20150101, "2015010a"],
-                "respin": ["1", None, 1.5], "label": ["RC", "Foo-1.0", 5, ""], "final": ["x", None]},
-    "release": {"name": [None, 5], "version": ["1.", "", None, "1.a"], "short": [None, 5], "type": ["bogus", None, "GA"],
+                "respin": ["1", None, 1.5],
+                # near misses of the label grammar <Name>-<N>.<N>: missing / extra / non-numeric parts, wrong case, unknown name, junk around
+                "label": ["RC", "Foo-1.0", 5, "", "RC-1", "RC-1.0.1", "Beta", "Update-2.x", "rc-1.0", "xRC-1.0", "RC-1.0x", "RC-.0", "RC-1.",
+                          "GA", "Gold-1.0", "RC 1.0", "RC_1.0"], "final": ["x", None]},
+    "release": {"name": [None, 5], "version": ["1.", "", None, "1.a", "1..2", "1.2.", "1 2"], "short": [None, 5],
+                "type": ["bogus", None, "GA", "ga ", "g"],
                 "is_layered": [None, "x"], "internal": ["x", None]},
     "base_product": {"name": [None], "version": ["1.", None], "short": [None], "type": ["bogus", None]},
-    "variant": {"id": ["a-b", "", None, 5], "uid": ["Bogus-x", None], "name": ["", None, 5], "type": ["bogus", None],
+    "variant": {"id": ["a-b", "", None, 5, "a b", "a_b", "a."], "uid": ["Bogus-x", None], "name": ["", None, 5], "type": ["bogus", None],
                 "arches": [set()]},
     "image": {"path": ["", None, 5], "mtime": ["1", None], "size": [0, "1", None], "volume_id": ["", 5], "type": ["bogus", None],
               "format": ["bogus", None], "arch": ["", None, 5], "disc_number": ["1", None], "disc_count": [None, "2"],
-              "checksums": [{}, None, []], "implant_md5": ["abc", "G" * 32, 5], "bootable": ["yes", None], "subvariant": [None, 5],
+              "checksums": [{}, None, []], "implant_md5": ["abc", "G" * 32, 5, "", "a" * 31, "a" * 33, "A" * 32, "a" * 31 + " "], "bootable": ["yes", None], "subvariant": [None, 5],
               "unified": ["x", None], "additional_variants": [None, "Server"]},
     "ti_release": {"name": [None, 5], "version": ["1.", None, "1.a", 5], "short": [None], "is_layered": ["x", None]},
     "ti_base_product": {"name": [None], "version": ["1.", None], "short": [None]},
